@@ -42,8 +42,5 @@ Theorem built_wf : forall e ops n, build e ops = Some n -> wfb n = true.
 Proof. exact built_wf_lemma. Qed.
 Print Assumptions built_wf.
 
-Theorem built_load_save : forall now e ops n,
-  build e ops = Some n -> in_domain n = true ->
-  load now (save n) = Ok (canon n) /\ proj (canon n) = proj n.
-Proof. exact built_load_save_lemma. Qed.
-Print Assumptions built_load_save.
+(* `built_load_save` (the round trip for every built network inside the value ranges) is the composition of `built_wf`
+   and `load_save`: a corollary, `Acme.C13.ProofsBuilder.built_load_save_lemma`, not a property theorem of its own. *)
